@@ -8,6 +8,8 @@
 //   M <id> <phantom_ip> <client_ip> <timeout_ns> <operation> <dst_port> <src_port> <proto>
 //     <flow_src hex bytes> <flow_dst hex bytes> <flow_dst_port> <flow_proto iana> <lifetime_ns>
 //                                       one published message + the flow the registration's client will send
+//   L <id> <flow_src hex> <flow_dst hex> <flow_dst_port> <flow_proto iana>
+//                                       the detector's expiry sweep at the current logical time, then its lookup of that flow
 // output (one line per M record, TAB separated key=value)
 
 use std::io::{self, BufRead, Write};
@@ -198,6 +200,38 @@ fn main() {
                 let logs = SHIM_LOG.lock().unwrap().join(" | ");
                 rep.push_str(&format!("\tlog=x{}", shim_hex(logs.as_bytes())));
                 writeln!(out, "{}", rep).expect("write");
+            }
+            "L" => {
+                // a packet of the registration's client arrives now: the detector's periodic sweep has run
+                // (drop_stale_sessions at the current logical time), then the packet path's lookup
+                assert!(f.len() == 6, "L record needs 6 fields");
+                let id = f[1];
+                let dropped = st.drop_stale_sessions();
+                let len = st.len();
+                match (shim_wire_ip(f[2]), shim_wire_ip(f[3])) {
+                    (Some(src), Some(dst)) => {
+                        let fl = FlowNoSrcPort {
+                            src_ip: src,
+                            dst_ip: dst,
+                            dst_port: f[4].parse::<u16>().expect("bad flow port"),
+                            proto: IpNextHeaderProtocol(f[5].parse::<u8>().expect("bad flow proto")),
+                        };
+                        let tracked = st.is_tracked_session(&fl);
+                        let now = precise_time_ns();
+                        let rem = st.tracked_sessions.read().unwrap().get(&fl.tag()).map(|v| v.saturating_sub(now));
+                        writeln!(
+                            out,
+                            "id={}\tlookup=1\tflow=ok\ttracked={}\trem={}\tdropped={}\tlen={}",
+                            id,
+                            tracked as u8,
+                            rem.map(|v| v.to_string()).unwrap_or("-".to_string()),
+                            dropped,
+                            len
+                        )
+                        .expect("write");
+                    }
+                    _ => writeln!(out, "id={}\tlookup=1\tflow=na\tdropped={}\tlen={}", id, dropped, len).expect("write"),
+                }
             }
             "" => {}
             other => panic!("unknown record type {:?}", other),
